@@ -47,6 +47,10 @@ TRUSTED = [
     "of the tree under check with sentinel values (extract/encoder_fields.py); C14_field_names / C14_roundtrip_file are stated over it; "
     "whole-life stream: histories over the model's full alphabet (hstep: pair-setup, real pair-verify exchanges, POST /pairings, "
     "config_changed, hash update, restart through the real state file) where the MODEL predicts the state after every restart",
+    "round 6: whole-life histories and a share of the state cases run with application-supplied encoders (harness/ref/encoders.py: checksummed, base64, "
+    "JSON envelope around the stock document) and, for whole-life histories, a live driver (real async_persist, stop / start of the same object); "
+    "after every step that changed the persisted state and whose background saves have finished the file must load (fresh driver, same encoder) to "
+    "the in-memory state",
     "multi-save stream: one real driver per history, driver.async_persist replaced by a synchronous call of the real "
     "driver.persist; the model side of that stream is persist/load of the in-memory state at each save (C14_history_roundtrip); "
     "whether and when the driver writes the file is otherwise C15's concern",
